@@ -32,7 +32,9 @@ Session ==
              LET recs == OkRecords(Items(Events[s].src))
              IN  [blocks |-> Blocks(recs), indomain |-> InDomain(recs)]])
 
-Handles == {"mapper", "mapperp", "cache"}
+\* handles: "mapper" (new), "mapperp" (new_with_param_mapping(.., true)), "cache" (write -> parse), and the
+\* other ways to obtain one: From<&str>, From<(&str, bool)>, Clone.  Those listed here carry no parameter index.
+NoParamIndex == {"mapper", "mapper_from", "mapper_from_false"}
 
 \* C13: every call returns: no panic (overflow checks are on in the harness build), no error
 Completed(ev) ==
@@ -46,10 +48,7 @@ Conforms(ev) ==
     [] ev.t = "q" ->
          /\ Completed(ev)
          /\ LET s == Session[ev.sid] IN
-            s.indomain =>
-              /\ ev.got.mapper = Answer(s.blocks, ev.q, FALSE)
-              /\ ev.got.mapperp = Answer(s.blocks, ev.q, TRUE)
-              /\ ev.got.cache = Answer(s.blocks, ev.q, TRUE)
+            s.indomain => \A h \in DOMAIN ev.got : ev.got[h] = Answer(s.blocks, ev.q, h \notin NoParamIndex)
 
 VARIABLE cursor
 Init == cursor \in 1..(IF N < K THEN N ELSE K)
